@@ -312,7 +312,9 @@ def sel(v, i):
 
 def vupd(v, i, x):
     if isinstance(v, tuple) and v[0] == 'vupd' and v[2] == i:
-        return ('vupd', v[1], i, x)
+        return vupd(v[1], i, x)
+    if x == ('sel', v, i) or x == sel(v, i):
+        return v
     return ('vupd', v, i, x)
 
 
@@ -343,6 +345,7 @@ def occurs(t, sub_):
 REBUILD = {
     '+': add, '-': sub, '*': mul, '/': div, 'neg': neg, 'idiv': idiv, 'imod': imod,
     'ite': ite, 'and': land, 'or': lor, 'not': lnot, 'sel': sel, 'fld': fld, 'size': size,
+    'vupd': vupd,
 }
 
 
